@@ -130,7 +130,7 @@ func VerifC08_InitiatorResumeDoesNotLiftLimitPause() {
 	f, st, chid := verifInstalled(1, 0)
 	zz.Assume(st.Status == datatransfer.Ongoing && st.SelfPeer == st.Responder && st.ResponderPaused)
 	req := verifScalarRequest("req")
-	req.TransferId = uint64(chid.ID)
+	zz.SetInt(&req.TransferId, uint64(chid.ID))
 	zz.Assume(req.MessageType == 1 && !req.Pause) // update: resume
 	err := f.rcv.receiveRequest(context.Background(), chid.Initiator, req)
 	zz.Settle()
